@@ -1,7 +1,8 @@
 -------------------------- MODULE TraceClientURL --------------------------
 (* Trace validation of client.Runtime.CreateHttpRequest against C10.        *)
-(* case  : one abstract input (reset line = the input)                      *)
-(* event : url {obs: the distinct URLs observed over all orders in which    *)
+(* case  : a history of operations built on ONE Runtime (reset line: base   *)
+(*         path, host, runtime schemes, steps = the operations in order)     *)
+(* event : url {step, obs: the distinct URLs observed over all orders in which    *)
 (*         the path parameters were set x repetitions (Go randomises the    *)
 (*         iteration of the value map), each with its count}                *)
 (* Allowed: every observation satisfies ObsOK (scheme, host, escaped path   *)
@@ -11,18 +12,21 @@ EXTENDS ClientURL, Json, IOUtils
 
 VARIABLES l, st, skipping, fails, cs
 
-UInit(e) == [base |-> e.base, pat |-> e.pat, vals |-> e.vals, cq |-> e.cq,
-             rs |-> e.rs, os |-> e.os, host |-> e.host]
+UInit(e) == [base |-> e.base, rs |-> e.rs, host |-> e.host, steps |-> e.steps]
+
+\* the input of the k-th operation: the property is per request, whatever was built before on the Runtime
+In(s, k) == [base |-> s.base, pat |-> s.steps[k].pat, vals |-> s.steps[k].vals, cq |-> s.steps[k].cq,
+             rs |-> s.rs, os |-> s.steps[k].os, host |-> s.host]
 
 UAllowed(s, e) ==
   CASE e.ev = "url" -> /\ Len(e.obs) = 1
-                       /\ \A k \in DOMAIN e.obs : ObsOK(s, e.obs[k])
+                       /\ \A k \in DOMAIN e.obs : ObsOK(In(s, e.step), e.obs[k])
     [] OTHER -> FALSE
 
 UWhy(s, e) ==
   CASE e.ev = "url" ->
-         IF \E k \in DOMAIN e.obs : ~ObsOK(s, e.obs[k])
-         THEN WhyObs(s, e.obs[CHOOSE k \in DOMAIN e.obs : ~ObsOK(s, e.obs[k])])
+         IF \E k \in DOMAIN e.obs : ~ObsOK(In(s, e.step), e.obs[k])
+         THEN WhyObs(In(s, e.step), e.obs[CHOOSE k \in DOMAIN e.obs : ~ObsOK(In(s, e.step), e.obs[k])])
          ELSE "order-dependent"
     [] OTHER -> "unknown-event"
 
